@@ -23,7 +23,7 @@ from ..envs import EnvA, generator_slot, generator_class
 from ..model import AnalysisError
 from ..tables import routing as T
 
-FLOOR = 150
+FLOOR = 160
 EXPLANATION = (
     "Static attribute resolution over all Generator subclasses of rl4co/envs (C3 MRO in-repo; assignments in any method of the "
     "class or its bases, class attributes, methods, properties define an attribute; every self.<attr> load in a generator method "
